@@ -45,6 +45,7 @@ static WorkerShm *g_w;          // array [jobs + 1]; the last one is used by run
 static VSuite g_suite;
 static std::string g_logdir;
 static int g_self_worker = -1;  // index of this process's WorkerShm (workers only)
+static uint64_t g_recycle_after = 400000;
 
 static double now_s() { timespec ts; clock_gettime(CLOCK_MONOTONIC, &ts); return ts.tv_sec + ts.tv_nsec * 1e-9; }
 
@@ -195,6 +196,9 @@ static void worker_main(int k, int cmdfd, int donefd) {
             if (t.mode == MODE_SINGLE || w.cancel) break;
             Prefix nxt;
             if (!next_prefix(w.slot.rec, t.floor, t.bound, nxt)) break;
+            // Sanitizer runtimes keep a record of every thread ever created: a worker retires after a bounded number of executions;
+            // the coordinator continues its subtree in a fresh process (exit code 77 + outcome OK = "recycle", not a failure).
+            if (w.cnt.executions >= g_recycle_after) _exit(77);
             pre = std::move(nxt);
         }
         c = 'd';
@@ -414,6 +418,14 @@ static bool explore(RunState &rs, int prog, int bound, int max_violations) {
         Worker &w = g_workers[k];
         WorkerShm &sh = g_w[k];
         absorb(rs, k, prog);
+        if (WIFEXITED(st) && WEXITSTATUS(st) == 77 && sh.slot.outcome == VS_OUT_OK) {      // a retired worker: continue its subtree elsewhere
+            Task t = w.task; Prefix nxt;
+            bool more = t.mode == MODE_SUBTREE && next_prefix(sh.slot.rec, t.floor, t.bound, nxt);
+            close(w.cmdfd); close(w.donefd); w.pid = -1; w.cmdfd = w.donefd = -1; w.busy = false;
+            spawn_worker(k);
+            if (more && !stop) { Task c{prog, bound, MODE_SUBTREE, t.floor, std::move(nxt)}; tasks.push_front(std::move(c)); }
+            return;
+        }
         ps.schedules++; ps.steps += sh.slot.steps;           // the execution that died
         int outcome = sh.slot.outcome;
         std::string msg = sh.slot.msg;
@@ -540,6 +552,7 @@ int main(int argc, char **argv) {
         else if (a == "--only") only = val(); else if (a == "--schedule") { schedule_arg = val(); have_schedule = true; }
         else if (a == "--max-bound") max_bound = atoi(val().c_str()); else if (a == "--max-violations") max_violations = atoi(val().c_str());
         else if (a == "--hang-limit") g_hang_limit = atof(val().c_str());
+        else if (a == "--recycle-after") g_recycle_after = strtoull(val().c_str(), nullptr, 10);
         else if (a == "--list") list = true;
         else { fprintf(stderr, "unknown argument %s\n", a.c_str()); return 2; }
     }
